@@ -120,6 +120,18 @@ func TestC12(t *testing.T) {
 				mc.ActPrefill(t, n, nil, rapid.Uint64().Draw(t, "seed"))
 				mc.CheckKeys(t)
 			},
+			"secondKeyColumn": func(t *rapid.T) {
+				// a second key column is refused; whatever the attempt left behind is dropped again -
+				// the collection's real key must be unimpressed
+				err := mc.C.CreateColumn("pk2", column.ForKey())
+				if err == nil {
+					mc.fail(t, "CreateColumn of a second key column succeeded")
+				}
+				mc.C.DropColumn("pk2")
+				mc.logf("CreateColumn(pk2, ForKey()) refused (%v), DropColumn(pk2)", err)
+				mc.flag("second-key-column-attempt")
+				mc.CheckKeys(t)
+			},
 			"bulkDelete": func(t *rapid.T) {
 				before := map[string]bool{}
 				for _, k := range keyAlphabet {
